@@ -1,0 +1,24 @@
+//go:build verif
+
+// Contracts for govc (see /verif/DESIGN.md). Comment-only; compiled only with -tags verif.
+
+package bmatch
+
+//@ property C15 C07
+
+// vmatch(f, v): the (pure) result of the value matcher closure f on value v
+//@ pure func vmatch(f int, v string) bool
+//@ fieldspec keyValueMatch.match(value string) bool
+//@   ensures result == vmatch(self, value)
+
+//@ pure func validmatcher(m LogMatcher, r *base.LogRecord) bool :=
+//@     forall j int :: 0 <= j && j < len(m.fieldMatches) ==> m.fieldMatches[j].match != nil && 0 <= m.fieldMatches[j].locator && m.fieldMatches[j].locator < len(r.Fields)
+// "Match = conjunction over all configured fields"
+//@ pure func matchall(m LogMatcher, r *base.LogRecord) bool :=
+//@     forall j int :: 0 <= j && j < len(m.fieldMatches) ==> vmatch(ref(m.fieldMatches[j].match), r.Fields[m.fieldMatches[j].locator])
+
+//@ func (m LogMatcher) Match(record *base.LogRecord) bool
+//@   requires record != nil && validmatcher(m, record)
+//@   ensures  result <==> matchall(m, record)
+//@   loop 1: invariant -1 <= rangeindex && rangeindex < len(m.fieldMatches) && fields === record.Fields
+//@   loop 1: invariant forall j int :: 0 <= j && j <= rangeindex ==> vmatch(ref(m.fieldMatches[j].match), record.Fields[m.fieldMatches[j].locator])
